@@ -38,7 +38,7 @@ RULE = ("dag family: every G-DAG pipeline of N functions over roots {x,y} (0..2 
         "pipelines and 2-function pipelines over root x[i] (thorough: all 2-function G-MAP pipelines and the 3-function ones over root x[i] whose first "
         "function has no internal axis) x every S x every irredundant I (marker arrays for provided intermediates) x the deletions. Entry points: "
         "subpipeline(I,S) + one call per requested output; map(output_names=S) (auto_subpipeline=True iff I holds an intermediate); "
-        "the same map request on a copy with every name in scope s and the inputs given per scope ({'s': {...}}); map(auto_subpipeline=True) without output_names when S is the leaf set and every leaf lies below a provided name; subpipeline(I,S).map. "
+        "the same map request twice on one pipeline object with a replace() of the last selected function in between; the same map request on a copy with every name in scope s and the inputs given per scope ({'s': {...}}); map(auto_subpipeline=True) without output_names when S is the leaf set and every leaf lies below a provided name; subpipeline(I,S).map. "
         "non-trivial = distinct (pipeline, S, I) that cuts at an intermediate, leaves a function out, or must be rejected")
 ASSUMPTIONS = ["selection reference = backward reachability cut by provided names (this module, ~40 lines); values from vmc/gen_dag.py:ref_eval and "
                "vmc/gen_map.py:ref_map restricted to the selected functions",
@@ -372,6 +372,29 @@ def run_dag(case, p=None):  # noqa: C901, PLR0912, PLR0915
                 break
         else:
             cx.log(entry, want_names)
+
+    # ---- the same map request twice on ONE pipeline object with a replace() in between: a selection that is remembered per
+    #      pipeline object (and name sets) must not outlive a change of that object ---------------------------------------
+    if cx.cls == "must" and funcs:
+        import copy as _copy
+        fi = sorted(funcs)[-1]
+        spec2 = _copy.deepcopy(spec)
+        spec2["funcs"][fi]["tag"] = "r" + spec["funcs"][fi]["name"][1:]
+        kw = {"output_names": set(s_objs), "auto_subpipeline": any(n in prod for n in given)}
+        try:
+            p3 = p.copy()
+            _quiet(p3.map, dict(vals), parallel=False, storage="dict", **kw)
+            _quiet(p3.replace, gen_dag.build_funcs(spec2)[fi])
+            r = _quiet(p3.map, dict(vals), parallel=False, storage="dict", **kw)
+        except Exception as e:  # noqa: BLE001
+            cx.raised("map-replace-map", e, cx.cls, front)
+        else:
+            for n in names:
+                want = gen_dag.ref_eval(spec2, n, vals).value
+                if n not in r or r[n].output != want:
+                    cx.add({"kind": "value-mismatch" if n in r else "output-missing"},
+                           f"map-replace-map: {cx.where()}: after replacing {spec['funcs'][fi]['name']} the same request gives {n} = {r[n].output if n in r else None!r}, the changed pipeline gives {want!r}")
+                    break
 
     # ---- the same map request with None as the value of every provided name (a provided None is a value; a default of the
     #      consumer must not replace it) - for pipelines that have defaults ------------------------------------------------
